@@ -189,11 +189,17 @@ def build_circuit(N, gates, ncb=0):
     return qc
 
 
-def impl_resolve(N, gates, basis, ncb=0):
+DEFAULT_ARG = "<default argument>"
+DEFAULT_BASIS = ["CNOT", "RX", "RY", "RZ"]
+
+
+def impl_resolve(N, gates, basis, ncb=0, basis_obj=None):
+    """`basis_obj`: the OBJECT handed to resolve_gates (a history uses one list object for several calls); default: a
+    fresh object per call"""
     qc = build_circuit(N, gates, ncb)
-    b = basis[1] if basis[0] == "str" else list(basis[1])
+    b = basis_obj if basis_obj is not None else (basis[1] if basis[0] == "str" else list(basis[1]))
     try:
-        r = qc.resolve_gates(b)
+        r = qc.resolve_gates() if isinstance(b, str) and b == DEFAULT_ARG else qc.resolve_gates(b)
     except ValueError as e:
         m = str(e)
         if "Not sufficient" in m:
@@ -543,10 +549,13 @@ class C03(PropertyCheck):
         "py/props/c03.py harness (incl. source_variant: one classically controlled probe per stage of resolve_gates, one string-basis probe)",
     ]
     assumptions = ["rules are uniform in placement and affine in the input angle (checked on random instances every run)",
-                   "a circuit handed to resolve_gates has no measurement (it is refused otherwise), so the classical bits do not change during a run"]
+                   "a circuit handed to resolve_gates has no measurement (it is refused otherwise), so the classical bits do not change during a run",
+                   "the model of resolve_gates is stateless: a call depends on its arguments only (compared on call histories "
+                   "with one basis list object, the default argument and one processor; the caller's list must stay unchanged)"]
     rule = ("case = (register size, gate list with placements, exact/symbolic angles, labels, classical conditions, styles, "
             "measurements, user gates; basis specification); distinct by canonical JSON; non-trivial = at least one gate is "
-            "rewritten or refused; plus one case per (one-qubit gate name, controls) for the constructors")
+            "rewritten or refused; plus one case per (one-qubit gate name, controls) for the constructors; plus call histories: "
+            "several such calls made in one process with ONE basis list object (each call one case)")
 
     # ---------------------------------------------------------------------------------
     def regenerate(self, ctx):
@@ -580,45 +589,74 @@ class C03(PropertyCheck):
         return ["DecompTables.lean", "DecompLabels.lean", "DecompAlias.lean", "DecompVariant.lean", "GateCtor.lean"] + mods
 
     # ---------------------------------------------------------------------------------
-    def _run_cases(self, ctx, res, cases, stream="main"):
-        kc, ex = variant()
-        v = "1%d%d" % (kc, ex)
-        lines = []
-        for (N, gs, b) in cases:
-            lines.append(f"resolvef v={v} basis={basis_enc(b)} items={';'.join(g.enc_item() for g in gs) if gs else '-'}")
-        outs = ctx.driver("drv_decomp").run(lines)
-        for (N, gs, b), o in zip(cases, outs):
-            symvals = {g.sym: g.val for g in gs if g.sym is not None}
-            st, mg = parse_model_f(o, symvals)
-            ncb = num_cbits(gs)
-            ist, r, qc = impl_resolve(N, gs, b, ncb)
-            inp = {"N": N, "gates": [g.js() for g in gs], "basis": list(b)}
-            rewritten = st != "ok" or len(mg) != len(gs) or any(m["src"] is None for m in mg)
-            res.case(inp, nontrivial=rewritten,
-                     tags=[f"basis={b[0]}", f"verdict={st.split(':')[0]}", f"len={min(len(gs), 6)}", f"stream={stream}",
-                           "cond=%d" % any(g.cond is not None for g in gs), "label=%d" % any(g.lab is not None for g in gs)])
-            w = {"N": N, "gates": [g.wit() for g in gs], "basis": list(b)}
-            if st != ist:
-                res.disagree(inp, st, ist, "verdict of resolve_gates", w)
-                continue
-            if st != "ok":
-                continue
-            shown = [[g.name, aslist(g.targets), aslist(g.controls), g.arg_value, g.arg_label, g.classical_controls,
-                      g.classical_control_value, g.control_value] for g in r.gates]
-            if len(mg) != len(r.gates):
-                res.disagree(inp, mg, shown, "resolved gate list (length)", w)
-                continue
-            bad = None
-            for m, og in zip(mg, r.gates):
-                bad = field_mismatch(m, og, qc.gates)
-                if bad:
-                    break
-            if bad is None and (r.N != N or r.num_cbits != qc.num_cbits or r.reverse_states != qc.reverse_states):
-                bad = f"circuit fields N/num_cbits/reverse_states: {r.N}/{r.num_cbits}/{r.reverse_states}"
-            if bad is None and any(a is b_ for a in r.gates for b_ in qc.gates):
-                bad = "the result shares a gate object with the input circuit"
+    def _compare_one(self, res, N, gs, b, o, ist, r, qc, stream, w, extra_tags=()):
+        """one call: the model's answer `o` against what the implementation did (ist, r, qc); `w` = witness recorded
+        with a disagreement"""
+        symvals = {g.sym: g.val for g in gs if g.sym is not None}
+        st, mg = parse_model_f(o, symvals)
+        inp = {"N": N, "gates": [g.js() for g in gs], "basis": list(b)}
+        if "history" in w:
+            inp = {"call": inp, "history_of": len(w["history"]), "basis_object": "shared"}
+        rewritten = st != "ok" or len(mg) != len(gs) or any(m["src"] is None for m in mg)
+        res.case(inp, nontrivial=rewritten,
+                 tags=[f"basis={b[0]}", f"verdict={st.split(':')[0]}", f"len={min(len(gs), 6)}", f"stream={stream}",
+                       "cond=%d" % any(g.cond is not None for g in gs), "label=%d" % any(g.lab is not None for g in gs)]
+                 + list(extra_tags))
+        if st != ist:
+            res.disagree(inp, st, ist, "verdict of resolve_gates", w)
+            return
+        if st != "ok":
+            return
+        shown = [[g.name, aslist(g.targets), aslist(g.controls), g.arg_value, g.arg_label, g.classical_controls,
+                  g.classical_control_value, g.control_value] for g in r.gates]
+        if len(mg) != len(r.gates):
+            res.disagree(inp, mg, shown, "resolved gate list (length)", w)
+            return
+        bad = None
+        for m, og in zip(mg, r.gates):
+            bad = field_mismatch(m, og, qc.gates)
             if bad:
-                res.disagree(inp, mg, shown, "resolved gate list: " + bad, w)
+                break
+        if bad is None and (r.N != N or r.num_cbits != qc.num_cbits or r.reverse_states != qc.reverse_states):
+            bad = f"circuit fields N/num_cbits/reverse_states: {r.N}/{r.num_cbits}/{r.reverse_states}"
+        if bad is None and any(a is b_ for a in r.gates for b_ in qc.gates):
+            bad = "the result shares a gate object with the input circuit"
+        if bad:
+            res.disagree(inp, mg, shown, "resolved gate list: " + bad, w)
+
+    def _line(self, gs, b):
+        kc, ex = variant()
+        return f"resolvef v=1{int(kc)}{int(ex)} basis={basis_enc(b)} items={';'.join(g.enc_item() for g in gs) if gs else '-'}"
+
+    def _run_cases(self, ctx, res, cases, stream="main"):
+        outs = ctx.driver("drv_decomp").run([self._line(gs, b) for (N, gs, b) in cases])
+        for (N, gs, b), o in zip(cases, outs):
+            ist, r, qc = impl_resolve(N, gs, b, num_cbits(gs))
+            w = {"N": N, "gates": [g.wit() for g in gs], "basis": list(b)}
+            self._compare_one(res, N, gs, b, o, ist, r, qc, stream, w)
+
+    def _run_histories(self, ctx, res, hists):
+        """histories: ONE basis list object handed to several resolve_gates calls made in this order.  The model is
+        stateless: each call is compared with the model's answer for the basis as written; afterwards the caller's
+        list must be what it was (argument purity, cf. C16/C20)."""
+        flat = [(h, k) for h in hists for k in range(len(h["history"]))]
+        lines = []
+        for h, k in flat:
+            c = h["history"][k]
+            lines.append(self._line(gates_of_witness(c), ("list", list(h["basis"][1]))))
+        outs = ctx.driver("drv_decomp").run(lines)
+        pos = 0
+        for h in hists:
+            b = ("list", list(h["basis"][1]))
+            obj = list(b[1])
+            for k, c in enumerate(h["history"]):
+                gs = gates_of_witness(c)
+                ist, r, qc = impl_resolve(c["N"], gs, b, num_cbits(gs), basis_obj=obj)
+                self._compare_one(res, c["N"], gs, b, outs[pos], ist, r, qc, "history", h, [f"call={min(k + 1, 3)}"])
+                pos += 1
+            if obj != b[1]:
+                res.disagree({"history_of": len(h["history"]), "basis": list(b)}, b[1], obj,
+                             "resolve_gates changed the caller's basis list", h)
 
     def correspondence(self, ctx, res):
         rng = ctx.rng
@@ -679,6 +717,12 @@ class C03(PropertyCheck):
                     cases.append((2, [G("SNOT", [1 - q], []), G(un, [q], [], lab=("u", 1), cond=([0], 1)),
                                       G("CNOT", [q], [1 - q])], ub))
         self._run_cases(ctx, res, cases, "user-gates")
+        # histories: one basis list OBJECT for several calls (every list basis; the later circuits contain gates whose
+        # decomposition yields every rotation axis)
+        hists = list(self._histories(rng, 40 if not ctx.thorough else 400))
+        self._run_histories(ctx, res, hists)
+        res.notes.append(f"{len(hists)} call histories with one basis list object (every list-form basis specification, "
+                         "two-rotation bases first): each call compared with the stateless model, the caller's list unchanged")
         # the constructors: the side condition `buildable` of resolve_den (RX RY RZ X Y Z have no controls) is what
         # the gate classes accept
         from qutip_qip.circuit import QubitCircuit
@@ -706,12 +750,87 @@ class C03(PropertyCheck):
 
     # ---------------------------------------------------------------------------------
     def oracle_replay(self, ctx, w):
+        if "history" in w:
+            return self._replay_history(ctx, w)
         gs = gates_of_witness(w)
         b = tuple(w["basis"])
         b = (b[0], b[1] if b[0] == "str" else list(b[1]))
         N = w["N"]
+        ist, r, qc = impl_resolve(N, gs, b, num_cbits(gs))
+        return self._judge(N, gs, b, ist, r, qc)
+
+    def _replay_history(self, ctx, w):
+        """calls made in this order in one process with ONE basis list object (or the default argument, or one
+        processor).  (c) every call meets the property for the basis as written; (a) every call gives what the same call
+        gives with a fresh copy of the original list; (b) the caller's list is afterwards what it was (argument purity;
+        C16/C20 ask the same of the simulators and the circuit methods)."""
+        if w.get("api") == "transpile":
+            return self._replay_processor(ctx, w)
+        default = w["basis"][0] == "default"
+        b = ("list", list(DEFAULT_BASIS if default else w["basis"][1]))
+        obj = DEFAULT_ARG if default else list(b[1])
+        n = len(w["history"])
+        found = {}
+        for k, c in enumerate(w["history"]):
+            gs = gates_of_witness(c)
+            ncb = num_cbits(gs)
+            pre = (f"call {k + 1} of {n} made with " + ("the default basis argument" if default else f"one basis list object {b[1]}")
+                   + ": ")
+            ist, r, qc = impl_resolve(c["N"], gs, b, ncb, basis_obj=obj)
+            f, d = self._judge(c["N"], gs, b, ist, r, qc)
+            if f:
+                found.setdefault("c", pre + d)
+            ist2, r2, _ = impl_resolve(c["N"], gs, b, ncb)
+            if ist != ist2 or (ist == "ok" and [attrs(g) for g in r.gates] != [attrs(g) for g in r2.gates]):
+                a = [g.name for g in r.gates] if ist == "ok" else ist
+                a2 = [g.name for g in r2.gates] if ist2 == "ok" else ist2
+                found.setdefault("a", pre + f"gives {a}, the same call with a fresh list {b[1]} gives {a2}")
+            now = self._default_now() if default else obj
+            if now != b[1]:
+                found.setdefault("b", pre + f"resolve_gates changed the caller's basis list {b[1]} to {now}")
+        for key in ("c", "a", "b"):
+            if key in found:
+                return True, found[key]
+        return False, f"all {n} calls meet the property, equal the calls with a fresh list, and leave the list alone"
+
+    @staticmethod
+    def _default_now():
+        from qutip_qip.circuit import QubitCircuit
+        d = QubitCircuit.resolve_gates.__defaults__
+        return list(d[0]) if d else None
+
+    def _replay_processor(self, ctx, w):
+        """several circuits transpiled by ONE processor object (transpile hands self.native_gates to resolve_gates)"""
+        from qutip_qip import device
+        cls = getattr(device, w["dev"])
+        M = w["M"]
+        proc = cls(M)
+        native0 = list(proc.native_gates)
+        n = len(w["history"])
+        for k, c in enumerate(w["history"]):
+            gs = gates_of_witness(c)
+            pre = f"circuit {k + 1} of {n} transpiled by one {w['dev']}({M}): "
+            qc = build_circuit(c["N"], gs, num_cbits(gs))
+            try:
+                r = proc.transpile(qc)
+                r2 = cls(M).transpile(build_circuit(c["N"], gs, num_cbits(gs)))
+            except Exception as e:
+                return True, pre + f"{type(e).__name__}: {e}"
+            bad = sorted({g.name for g in r.gates} - set(native0) - {"GLOBALPHASE", "IDLE"})
+            if bad:
+                return True, pre + f"result contains {bad}, not native to the device {native0}"
+            if [attrs(g) for g in r.gates] != [attrs(g) for g in r2.gates]:
+                return True, pre + "differs from what a fresh processor returns"
+            if list(proc.native_gates) != native0:
+                return True, pre + f"native_gates of the processor changed from {native0} to {list(proc.native_gates)}"
+            d = np.abs(qc.compute_unitary().full() - r.compute_unitary().full()).max()
+            if d > 1e-9:
+                return True, pre + f"unitary differs by {d:.3g}"
+        return False, f"all {n} circuits transpiled onto native gates with the same unitary"
+
+    def _judge(self, N, gs, b, ist, r, qc):
+        """the property for ONE call: (N, gs) resolved in basis `b` gave (ist, r); qc = the input circuit"""
         ncb = num_cbits(gs)
-        ist, r, qc = impl_resolve(N, gs, b, ncb)
         names = [b[1]] if b[0] == "str" else list(b[1])
         # a user's gate named in the list form of the basis is passed through; the rest of the list is judged as usual
         users = [n for n in names if n in USER_GATES] if b[0] == "list" else []
@@ -773,6 +892,42 @@ class C03(PropertyCheck):
             return True, "emitted gate object: " + d
         return False, "same unitary, basis respected"
 
+    @staticmethod
+    def _axes_circuit():
+        """a circuit whose resolution yields rotations about every axis (so that a skipped elimination shows)"""
+        gs = [G("SNOT", [0], []), G("RZ", [1], [], sym=1, val=0.37), G("CNOT", [1], [0]), G("RY", [0], [], sym=3, val=-1.1),
+              G("PHASEGATE", [1], [], sym=4, val=0.8), G("RX", [1], [], sym=5, val=0.5), G("CSIGN", [0], [1])]
+        return {"N": 2, "gates": [g.wit() for g in gs]}
+
+    def _list_bases(self):
+        two = lambda b: len([n for n in b[1] if n in R1]) == 2
+        ls = [b for b in valid_bases() if b[0] == "list"]
+        return sorted(ls, key=lambda b: not two(b))
+
+    def _histories(self, rng, n_rand):
+        """every list-form basis (two-rotation bases first) used as ONE object for three calls; the default argument;
+        then random histories"""
+        small = {"N": 1, "gates": [G("X", [0], []).wit()]}
+        for b in self._list_bases() + [b for b in other_bases() if b[0] == "list"]:
+            yield {"basis": ["list", list(b[1])], "history": [small, self._axes_circuit(), self._axes_circuit()]}
+        for _ in range(n_rand):
+            b = rng.choice(self._list_bases())
+            hist = []
+            for _ in range(rng.randint(2, 4)):
+                N = rng.randint(1, 3)
+                gs = [g for g in (random_gate(rng, N, RESOLVABLE + ALIASES, i) for i in range(rng.randint(1, 5))) if g is not None]
+                hist.append({"N": N, "gates": [g.wit() for g in gs]})
+            yield {"basis": ["list", list(b[1])], "history": hist}
+
+    def _oracle_histories(self):
+        small = {"N": 1, "gates": [G("X", [0], []).wit()]}
+        for b in self._list_bases():
+            yield {"basis": ["list", list(b[1])], "history": [small, self._axes_circuit(), self._axes_circuit()]}
+        yield {"basis": ["default", None], "history": [small, self._axes_circuit()]}
+        for dev in ("LinearSpinChain", "CircularSpinChain", "SCQubits", "DispersiveCavityQED"):
+            yield {"api": "transpile", "dev": dev, "M": 3 if dev == "CircularSpinChain" else 2,
+                   "history": [small, self._axes_circuit(), self._axes_circuit()]}
+
     def _rand_witness(self, rng):
         kc, ex = variant()
         N = rng.randint(1, 4)
@@ -814,6 +969,10 @@ class C03(PropertyCheck):
 
     def oracle_search(self, ctx, budget_s):
         t0 = time.time()
+        for w in self._oracle_histories():
+            f, d = self.oracle_replay(ctx, w)
+            if f:
+                yield w, d
         for w in self._systematic():
             f, d = self.oracle_replay(ctx, w)
             if f:
@@ -827,6 +986,15 @@ class C03(PropertyCheck):
                 yield w, d
 
     def oracle_always(self, ctx):
+        for w in self._oracle_histories():
+            f, d = self.oracle_replay(ctx, w)
+            if f:
+                yield w, d
+        if ctx.thorough:
+            for w in self._histories(ctx.rng, 200):
+                f, d = self.oracle_replay(ctx, w)
+                if f:
+                    yield w, d
         ws = list(self._systematic())
         if not ctx.thorough:
             ws = ctx.rng.sample(ws, min(len(ws), 150))
